@@ -39,30 +39,37 @@ def enc_result(r, nres):
     return ["v", out]
 
 
-def child(desc, target, calls, start, wfd, budget):
-    out = os.fdopen(wfd, "w", buffering=1)
-
-    def emit(o):
-        out.write(json.dumps(o) + "\n")
-        out.flush()
-    signal.alarm(budget)
-    devnull = os.open(os.devnull, os.O_WRONLY)
-    os.dup2(devnull, 2)
-    os.dup2(devnull, 1)
+def fresh_python_runtime():
+    """every python-target instance of a process shares one heap (`get_irpy_rt` singleton + `rt.clone()`), which makes a second
+    instance change `memory.size` of the first.  A worker runs many modules one after the other: give each its own runtime."""
     try:
-        import logging
-        logging.disable(logging.CRITICAL)
+        from ppci.wasm.execution import _python_instance as PI
+        if hasattr(PI.get_irpy_rt, "_instance"):
+            delattr(PI.get_irpy_rt, "_instance")
+    except Exception:  # noqa
+        pass
+
+
+def run_one(job, emit):
+    """instantiate job.desc on job.target and perform job.calls[job.start:]; everything observed goes to emit()"""
+    desc, target, calls = job.desc, job.target, job.calls
+    try:
         from ppci.wasm import instantiate
+        if target == "python":
+            fresh_python_runtime()
         m = G.to_ppci(desc)
         inst = instantiate(m, target=target)
+        if job.twice:
+            inst = instantiate(m, target=target)          # the same Module object again
+        if job.after is not None:
+            instantiate(G.to_ppci(job.after), target=target)  # an unrelated second instance in the same process
     except BaseException as e:  # noqa
         emit({"inst": "exc", "name": type(e).__name__, "msg": str(e)[:300]})
-        out.close()
-        os._exit(0)
+        return
     emit({"inst": "ok"})
     ex = inst.exports
     for k, (fi, args) in enumerate(calls):
-        if k < start:
+        if k < job.start:
             continue
         ft = desc["types"][desc["funcs"][fi]["type"]]
         hargs = [G.to_host(t, b) for t, b in zip(ft[0], args)]
@@ -86,13 +93,61 @@ def child(desc, target, calls, start, wfd, budget):
         except BaseException as e:  # noqa
             fin["globals"].append(["exc", type(e).__name__, str(e)[:200]])
     emit({"final": fin})
+
+
+def worker(jobs, rfd, wfd):
+    """child: read job indices ("<index> <start>\n") from rfd, run them, write JSON lines to wfd"""
+    import gc
+    import logging
+    gc.disable()
+    logging.disable(logging.CRITICAL)
+    devnull = os.open(os.devnull, os.O_WRONLY)
+    os.dup2(devnull, 2)
+    os.dup2(devnull, 1)
+    inp = os.fdopen(rfd, "r")
+    out = os.fdopen(wfd, "w", buffering=1)
+
+    def emit(o):
+        out.write(json.dumps(o) + "\n")
+        out.flush()
+    n = 0
+    for line in inp:
+        ws = line.split()
+        if not ws:
+            continue
+        j = jobs[int(ws[0])]
+        j.start = int(ws[1])
+        run_one(j, emit)
+        emit({"done": int(ws[0])})
+        n += 1
+        if n % 25 == 0:
+            gc.collect()
     out.close()
     os._exit(0)
 
 
+def warm(targets):
+    """import everything the children need once, in the parent (children are forked): instantiate a trivial module"""
+    import logging
+    from ppci.wasm import instantiate
+    d = G.new_module(mem=[1, 1])
+    G.add_func(d, ["f64"], ["f64"], [], [["local.get", 0], ["f64.sqrt"]])
+    lvl = logging.root.manager.disable
+    logging.disable(logging.CRITICAL)
+    try:
+        for t in targets:
+            try:
+                instantiate(G.to_ppci(d), target=t)
+            except Exception:  # noqa
+                pass
+    finally:
+        logging.disable(lvl)
+
+
 class Job:
-    def __init__(self, key, desc, target, calls, stateless, budget):
+    def __init__(self, key, desc, target, calls, stateless, budget, after=None, twice=False):
         self.key, self.desc, self.target, self.calls, self.stateless, self.budget = key, desc, target, calls, stateless, budget
+        self.after, self.twice = after, twice
         self.inst = None
         self.results = {}
         self.final = None
@@ -100,73 +155,123 @@ class Job:
         self.crashes = 0
 
 
-def spawn(job):
-    r, w = os.pipe()
-    pid = os.fork()
-    if pid == 0:
-        os.close(r)
-        try:
-            child(job.desc, job.target, job.calls, job.start, w, job.budget)
-        finally:
-            os._exit(1)
-    os.close(w)
-    return pid, r
+class Slot:
+    def __init__(self, jobs):
+        c2p_r, c2p_w = os.pipe()
+        p2c_r, p2c_w = os.pipe()
+        pid = os.fork()
+        if pid == 0:
+            os.close(c2p_r)
+            os.close(p2c_w)
+            try:
+                worker(jobs, p2c_r, c2p_w)
+            finally:
+                os._exit(1)
+        os.close(c2p_w)
+        os.close(p2c_r)
+        self.pid, self.rfd, self.wfd = pid, c2p_r, p2c_w
+        self.buf = b""
+        self.job = None
+        self.idx = None
+        self.t0 = 0.0
+
+    def assign(self, idx, job):
+        self.job, self.idx, self.t0 = job, idx, time.time()
+        os.write(self.wfd, f"{idx} {job.start}\n".encode())
+
+    def close(self):
+        for fd in (self.rfd, self.wfd):
+            try:
+                os.close(fd)
+            except OSError:
+                pass
 
 
-def absorb(job, buf):
-    for line in buf.split(b"\n"):
-        if not line.strip():
-            continue
-        try:
-            o = json.loads(line)
-        except ValueError:
-            continue
-        if "inst" in o:
-            job.inst = o
-        elif "i" in o:
-            job.results[o["i"]] = o["r"]
-        elif "final" in o:
-            job.final = o["final"]
+def absorb_line(job, line):
+    try:
+        o = json.loads(line)
+    except ValueError:
+        return None
+    if "inst" in o:
+        job.inst = o
+    elif "i" in o:
+        job.results[o["i"]] = o["r"]
+    elif "final" in o:
+        job.final = o["final"]
+    elif "done" in o:
+        return "done"
+    return None
 
 
 def run_jobs(jobs, workers=4, max_crashes=400):
-    """run all jobs, at most `workers` children at a time; fills job.inst / job.results / job.final.
-    A child that dies while executing call k gives results[k] = ["crash", signame]; a stateless job is resumed
-    after the crashing call in a fresh child, a stateful one stops there."""
-    pending = collections.deque(jobs)
-    active = {}
-    while pending or active:
-        while pending and len(active) < workers:
-            j = pending.popleft()
-            pid, fd = spawn(j)
-            active[fd] = [pid, j, b"", time.time()]
-        ready, _, _ = select.select(list(active), [], [], 1.0)
-        for fd in ready:
-            ent = active[fd]
-            data = os.read(fd, 1 << 16)
-            if data:
-                ent[2] += data
-                continue
-            os.close(fd)
-            del active[fd]
-            pid, j, buf, _t = ent
-            _, status = os.waitpid(pid, 0)
-            absorb(j, buf)
-            if os.WIFSIGNALED(status):
-                sig = os.WTERMSIG(status)
-                name = "timeout" if sig == signal.SIGALRM else "crash-" + signal.Signals(sig).name
-                if j.inst is None:
-                    j.inst = {"inst": name}
-                    continue
-                done = [k for k in range(len(j.calls)) if k in j.results]
-                k = (max(done) + 1) if done else j.start
-                if k < len(j.calls):
-                    j.results[k] = [name]
-                    j.crashes += 1
-                    if j.stateless and j.crashes < max_crashes and k + 1 < len(j.calls):
-                        j.start = k + 1
-                        j.inst = None
-                        pending.appendleft(j)
-                else:
-                    j.final = {"mem": [name], "globals": []}
+    """run all jobs on `workers` persistent forked worker processes; fills job.inst / job.results / job.final.
+    A worker that dies (or exceeds the job's budget and is killed) while executing call k gives results[k] = ["crash-SIG"] /
+    ["timeout"]; a stateless job is resumed after that call, a stateful one stops there.  A fresh worker replaces the dead one."""
+    import gc
+    gc.collect()
+    gc.freeze()
+    todo = collections.deque(range(len(jobs)))
+    slots = []
+    try:
+        while todo or any(s.job is not None for s in slots):
+            # hand out work
+            for s in slots:
+                if s.job is None and todo:
+                    i = todo.popleft()
+                    s.assign(i, jobs[i])
+            while todo and len(slots) < workers:
+                s = Slot(jobs)
+                slots.append(s)
+                i = todo.popleft()
+                s.assign(i, jobs[i])
+            busy = [s for s in slots if s.job is not None]
+            if not busy:
+                break
+            ready, _, _ = select.select([s.rfd for s in busy], [], [], 1.0)
+            now = time.time()
+            for s in busy:
+                dead = None
+                if s.rfd in ready:
+                    data = os.read(s.rfd, 1 << 16)
+                    if data:
+                        s.buf += data
+                        while b"\n" in s.buf:
+                            line, s.buf = s.buf.split(b"\n", 1)
+                            if absorb_line(s.job, line) == "done":
+                                s.job = None
+                                break
+                        continue
+                    _, status = os.waitpid(s.pid, 0)
+                    dead = "crash-" + (signal.Signals(os.WTERMSIG(status)).name if os.WIFSIGNALED(status) else "exit")
+                elif now - s.t0 > s.job.budget:
+                    os.kill(s.pid, signal.SIGKILL)
+                    os.waitpid(s.pid, 0)
+                    dead = "timeout"
+                if dead:
+                    j = s.job
+                    s.close()
+                    slots.remove(s)
+                    if j.inst is None or j.inst.get("inst") != "ok":
+                        j.inst = {"inst": dead}
+                        continue
+                    done = [k for k in range(len(j.calls)) if k in j.results]
+                    k = (max(done) + 1) if done else j.start
+                    if k < len(j.calls):
+                        j.results[k] = [dead]
+                        j.crashes += 1
+                        if j.stateless and j.crashes < max_crashes and k + 1 < len(j.calls):
+                            j.start = k + 1
+                            j.inst = None
+                            todo.appendleft(jobs.index(j))
+                    else:
+                        j.final = {"mem": [dead], "globals": []}
+    finally:
+        for s in slots:
+            s.close()
+            try:
+                os.kill(s.pid, signal.SIGKILL)
+                os.waitpid(s.pid, 0)
+            except OSError:
+                pass
+        gc.unfreeze()
     return jobs
